@@ -46,7 +46,7 @@ def forms(t, zones):
 
 def main():
     instants = json.load(open(sys.argv[1]))
-    from pamqp import decode, encode
+    from pamqp import commands, decode, encode, frame, header
     zones = [(n, zoneinfo.ZoneInfo(n)) for n in DST_ZONES]
     digest = hashlib.sha256()
     n = 0
@@ -95,6 +95,30 @@ def main():
                                    'got': shown})
             digest.update(('%s|%d|%s|%s\n' % (label, t, data.hex(),
                                               shown)).encode())
+            if label in ('naive', 'aware-fixed0', 'struct_time'):
+                # the same value as a message property and inside a method
+                # argument table, through the frame-level API
+                n += 1
+                try:
+                    props = commands.Basic.Properties(timestamp=value)
+                    hdr = frame.marshal(header.ContentHeader(0, 1, props), 1)
+                    back_h = frame.unmarshal(hdr)[2].properties.timestamp
+                    qd = frame.marshal(commands.Queue.Declare(
+                        queue='q', arguments={'t': value}), 1)
+                    back_q = frame.unmarshal(qd)[2].arguments['t']
+                    okp = (hdr[-9:-1] == want and qd[-9:-1] == want and
+                           back_h == EPOCH + datetime.timedelta(
+                               seconds=absolute) and back_q == back_h and
+                           back_h.utcoffset() == datetime.timedelta(0))
+                    shown_p = hdr[-9:-1].hex() + '/' + qd[-9:-1].hex()
+                except Exception as exc:  # noqa
+                    okp, shown_p = False, repr(exc)
+                if not okp and len(violations) < 5:
+                    violations.append({
+                        'stage': 'property/argument', 'form': label,
+                        'instant': t, 'value': repr(value),
+                        'want': want.hex(), 'got': shown_p})
+                digest.update(shown_p.encode())
             if n % 40000 == 1:
                 samples.append({'form': label, 'instant': t,
                                 'bytes': data.hex(), 'decoded': shown})
